@@ -96,7 +96,18 @@ func runC16(t *testing.T, c *choice.Stream, r *Result, opt RunOpt) {
 			}
 			names = append(names, fmt.Sprintf("append(%d)", k))
 			vals := gen.Values(vr, cs.RT, k)
-			if err := gen.Fill(col, cs.RT, vals); err != nil {
+			viaArr := false
+			if c.Bool("append.arr", 1, 3) {
+				ok, err := gen.AppendArr(col, cs.RT, vals)
+				if err != nil {
+					panic(err)
+				}
+				viaArr = ok
+			}
+			if viaArr {
+				names[len(names)-1] = fmt.Sprintf("appendarr(%d)", k)
+				r.Fire("append_arr")
+			} else if err := gen.Fill(col, cs.RT, vals); err != nil {
 				panic(err)
 			}
 			model = append(model, vals...)
